@@ -83,7 +83,7 @@ func runC06(c *Ctx) {
 	var hs *Sess
 	if pendingHS > 0 {
 		hs = w.NewSess("hs", "r1", false, 8, nil)
-		simrt.Go("hs:pending", func() {
+		simrt.GoIn(hs.Party(), "hs:pending", func() {
 			hs.StartAttach(nil)
 			hs.StartDrain()
 			hs.Send(&wamp.Hello{Realm: "r1", Details: wamp.Dict{"roles": AllFeatures(), "authmethods": wamp.List{"ticket"}, "authid": "alice"}})
@@ -101,7 +101,7 @@ func runC06(c *Ctx) {
 		js := w.NewSess(fmt.Sprintf("j%d", j), wamp.URI(g.Pick("r1", "r1", "r2")), g.Bool(), qs[g.Intn(len(qs))], nil)
 		wait := g.Intn(delaySteps + 40)
 		joiners = append(joiners, js)
-		simrt.Go("actor:"+js.Name, func() {
+		simrt.GoIn(js.Party(), "actor:"+js.Name, func() {
 			for i := 0; i < wait; i++ {
 				simrt.Yield("joinwait")
 			}
